@@ -26,8 +26,10 @@
 (* are ids into fixed tables of the Go harness (tables_test.go).           *)
 (*                                                                         *)
 (* Domain assumptions (stated in the evidence):                            *)
-(*  A1 index keys < 0x73*2^56 (first key byte < 's'); index 0 is never     *)
-(*     stored (raft indexes start at 1);                                   *)
+(*  A1 index 0 is never stored (raft indexes start at 1); indexes and       *)
+(*     DeleteRange bounds are <= 2^64-2 (max+1 overflows for 2^64-1).      *)
+(*     Index keys above 0x737461626c657374 ("stablest") sort AFTER the     *)
+(*     "stablestore-" keys in LevelDB: such ranks are listed in `above`;   *)
 (*  A2 the data of a LogCommand entry is a robust.Message (JSON or         *)
 (*     'p'-prefixed protobuf) -- ConvertToProto log.Panicf()s otherwise;   *)
 (*  A3 fewer than 100 entries in the store when ConvertToProto runs (the   *)
@@ -47,6 +49,7 @@ CONSTANTS
     ProtoChoices,  \* <<i,term,ty,d,x,at,unset>>           offered to StoreLogProto
     RangeChoices,  \* <<lo,hi>>                            offered to DeleteRange
     EncChoices,    \* encodings offered to Open
+    Above,         \* ranks whose 8-byte key sorts after the "stablestore-" keys
     KeepHist,      \* TRUE: hist is the whole op sequence; FALSE: only the last op
     MaxOps         \* bound on Len(hist) when KeepHist (simulation depth)
 
@@ -55,9 +58,11 @@ VARIABLES
     stable,  \* [subset of Keys -> [t : {"b","u"}, n : value id]]
     enc,     \* "json" | "proto" | "none" (closed)
     open,    \* BOOLEAN: a LevelDBStore object is open on the directory
+    above,   \* = Above (a variable only so that the trace specification can take it
+             \*   from the trace); never changes
     hist     \* history of operations (generator output, not implementation state)
 
-vars == <<logs, stable, enc, open, hist>>
+vars == <<logs, stable, enc, open, hist, above>>
 SV   == <<logs, stable, enc, open>>        \* the VIEW of the exhaustive config
 
 ---------------------------------------------------------------------------
@@ -103,6 +108,7 @@ TypeOK ==
     /\ open \in BOOLEAN
     /\ enc \in {"json", "proto", "none"}
     /\ open <=> enc # "none"
+    /\ above \subseteq Idx
 
 ---------------------------------------------------------------------------
 (* Observations.                                                           *)
@@ -175,16 +181,26 @@ ConvertEntry(e) ==
     IF e.ty # 0 THEN [e EXCEPT !.venc = "proto"]
     ELSE [e EXCEPT !.venc = "proto", !.conv = e.conv \/ ConvChangesBytes(e)]
 
-Converted(L) ==
-    IF \E i \in DOMAIN L : AlreadyConverted(L[i])
+\* The walk starts at the first key, steps over leading "stablestore-" keys and
+\* stops at the first "stablestore-" key after a log key.  So with a non-empty
+\* stable store it sees the entries below the stable keys, or -- if there are
+\* none -- the entries above them; never both.
+Visited(L, S) ==
+    IF DOMAIN S = {} THEN DOMAIN L
+    ELSE LET below == DOMAIN L \ above IN
+         IF below # {} THEN below ELSE DOMAIN L
+
+Converted(L, S) ==
+    IF \E i \in Visited(L, S) : AlreadyConverted(L[i])
     THEN L
-    ELSE [i \in DOMAIN L |-> ConvertEntry(L[i])]
+    ELSE [i \in DOMAIN L |-> IF i \in Visited(L, S) THEN ConvertEntry(L[i]) ELSE L[i]]
 
 ---------------------------------------------------------------------------
 (* Actions.                                                                *)
 
 Record(op) ==
-    hist' = IF KeepHist THEN Append(hist, op) ELSE <<op>>
+    /\ hist' = IF KeepHist THEN Append(hist, op) ELSE <<op>>
+    /\ UNCHANGED above
 
 Init ==
     /\ logs = EmptyFn
@@ -192,6 +208,7 @@ Init ==
     /\ enc = "none"
     /\ open = FALSE
     /\ hist = <<>>
+    /\ above = Above
 
 \* NewLevelDBStore(dir, false, useProtobuf)
 Open(e) ==
@@ -199,7 +216,7 @@ Open(e) ==
     /\ e \in {"json", "proto"}
     /\ open' = TRUE
     /\ enc' = e
-    /\ logs' = IF e = "proto" THEN Converted(logs) ELSE logs
+    /\ logs' = IF e = "proto" THEN Converted(logs, stable) ELSE logs
     /\ UNCHANGED stable
     /\ Record([op |-> "Open", enc |-> IF e = "proto" THEN 1 ELSE 0])
 
@@ -244,6 +261,8 @@ StoreLogProto(p) ==
     /\ Record([op |-> "StoreLogProto", p |-> p])
 
 \* DeleteRange(min, max): every entry with min <= index <= max, nothing else.
+\* Stable-store keys are never touched, also when the byte range of the index keys
+\* spans them (finding F16b: the unrepaired code deleted them).
 \* min > max is the empty range (finding F16: the unrepaired code panicked inside
 \* goleveldb for such a call once the database had several table files; the
 \* model describes the repaired behaviour).
@@ -270,7 +289,7 @@ SetUint64(k, v) ==
 
 ConvertToProto ==
     /\ open
-    /\ logs' = Converted(logs)
+    /\ logs' = Converted(logs, stable)
     /\ UNCHANGED <<stable, enc, open>>
     /\ Record([op |-> "Convert"])
 
